@@ -190,10 +190,16 @@ def sort_kind(v):
 
 
 def to_real(v):
+    if isinstance(v, bool):
+        return z3.RealVal(1 if v else 0)
+    if isinstance(v, int):
+        return z3.RealVal(v)
     v = toz(v)
     if v.sort() == R:
         return v
     if v.sort() == I:
+        if z3.is_int_value(v):
+            return z3.RealVal(v.as_long())
         return z3.ToReal(v)
     if v.sort() == B:
         return z3.If(v, z3.RealVal(1), z3.RealVal(0))
